@@ -555,7 +555,7 @@ def run(ctx):
     n_wit = len(insts)
     insts += produced_by_ahbicht(ctx, ns)
     n_own = len(insts) - n_wit
-    per_class = 40 if ctx.quick else 2500
+    per_class = 40 if ctx.quick else 2000
     for cname, g in GENS:
         for _ in range(per_class):
             insts.append(g(rng, ns))
@@ -622,7 +622,7 @@ def run(ctx):
                     pass
 
     # ---------------- trees
-    n_trees = n_tree_nontrivial = n_unrep = n_eval = 0
+    n_trees = n_tree_nontrivial = n_unrep = n_eval = n_not_ok = 0
     tseen = set()
     for kind, s, kw in tree_sources(ctx):
         pkgs = {"1P": "[1] U [2]", "12P": "[3]", "123P": "[1] O [901]", "2P": "[2]", "7P": "[7]", "45P": "[45]", "499P": "[499]", "501P": "[501]",
@@ -640,6 +640,8 @@ def run(ctx):
             continue
         tseen.add(tkey)
         n_trees += 1
+        if not all(isinstance(v, (Tree, Token)) and (isinstance(v, Tree) or len(v.value) > 0) for st in tree.iter_subtrees() for v in st.children):
+            n_not_ok += 1
         text = outcome(lambda: TreeSchema().dumps(tree))
         back = outcome(lambda: TreeSchema().loads(text[1])) if text[0] == "ok" else text
         inp = {"entry": "parse_condition_expression_to_tree" if kind == "cond" else "parse_expression_including_unresolved_subexpressions", "expression": s, "kwargs": kw}
@@ -689,6 +691,8 @@ def run(ctx):
             add(f"CTree {gltree(t)} {gjson(json.loads(text[1]))} {gres(back, glval)}", "tree: dump / load(dump) (hand-made boundary)", to_desc(t))
         except Unrepresentable:
             pass
+    if n_not_ok:
+        ctx.broke("parsed trees that violate tree_ok (hypothesis of C19_tree): a token with an empty value or a child that is neither Tree nor Token", str(n_not_ok))
     if n_unrep:
         ctx.broke("parsed trees with children that are neither Tree nor Token (outside ltree)", str(n_unrep))
 
@@ -709,11 +713,22 @@ def run(ctx):
     by_kind = {}
     for w, _ in meta:
         by_kind[w] = by_kind.get(w, 0) + 1
+    import re
+
+    outcomes = {}
+    for (w, _), term in zip(meta, terms):
+        if w.startswith("tie T") or w.startswith("instance satisfies") or w.startswith("constructor"):
+            continue
+        last = re.findall(r"\(Exn (\w+)\)$", term)
+        k = ("raises " + last[0]) if last else "returns"
+        outcomes.setdefault(w, {}).setdefault(k, 0)
+        outcomes[w][k] += 1
+    ctx.notes["observed_outcomes"] = outcomes
     ctx.notes["correspondence"] = {"cases": n, "mismatches": len(bad), "by_kind": by_kind}
     ctx.notes["translator_validation"] = {"cases": n_facts, "mismatches": sum(1 for i in bad if meta[i][0].startswith("tie T"))}
     ctx.notes["inputs"] = {"witness_instances": n_wit, "instances_produced_by_ahbicht": n_own, "random_instances_per_class": per_class,
                            "distinct_instances": n_distinct, "instances_with_undetermined_outcome": n_none, "constructor_rejections": n_rej,
-                           "parsed_trees": n_trees, "trees_evaluated_twice": n_eval}
+                           "parsed_trees": n_trees, "parsed_trees_violating_tree_ok": n_not_ok, "trees_evaluated_twice": n_eval}
     ctx.add_eval(n)
     ctx.coverage["distinct_nontrivial"] = n_distinct + n_tree_nontrivial
     ctx.coverage["rule"] = ("instances: deterministic witnesses (every Optional attribute None), results of ahbicht's own evaluation / key extraction, random instances of the "
